@@ -6,7 +6,8 @@ from vf.ref.refeval import num_to_col
 
 ID = 'C15'
 LEVEL = 'exploration'
-RULE = ('sampled (Hypothesis-decoded): columns/tables (<=12 rows x <=5 '
+RULE = ('Approximate MATCH also over ascending TEXT columns with column and key in independent letter case.  '
+        'sampled (Hypothesis-decoded): columns/tables (<=12 rows x <=5 '
         'columns) of numbers and non-numeric texts with duplicates; criteria: '
         'bare number, bare text, and each prefix = <> < <= > >= with '
         'positive, negative and decimal numeric operands and with text '
